@@ -552,11 +552,21 @@ def fin_types():
                 if k is None and sign:
                     continue
                 text = f"{sign}{k if k is not None else ''}{day}"
-                for variant in (text, text.lower()):
+                spellings = [text, text.lower()]
+                if k is not None and k < 10:
+                    spellings.append(f"{sign}0{k}{day}")          # ordwk = 1*2DIGIT: 01 .. 09 are grammar-valid spellings of 1 .. 9
+                for variant in spellings:
                     n += 1
-                    w = vWeekday.from_ical(variant)
                     rel = None if k is None else (-k if sign == "-" else k)
-                    if w.weekday != day or w.relative != rel or vWeekday(w).to_ical().decode() != text.upper():
+                    try:
+                        w = vWeekday.from_ical(variant)
+                        back = vWeekday.from_ical(vWeekday(w).to_ical().decode())
+                        ok = (w.weekday == day and w.relative == rel and back.weekday == day and back.relative == rel
+                              and (variant != text and variant != text.lower() or vWeekday(w).to_ical().decode() == text.upper()))
+                    except Exception as e:  # noqa
+                        ok = False
+                        variant = f"{variant} ({type(e).__name__}: {e})"
+                    if not ok:
                         bad.append(("weekday", variant))
     for f in vFrequency.frequencies if hasattr(vFrequency, "frequencies") else []:
         for variant in (f, f.lower(), f.capitalize()):
